@@ -23,4 +23,11 @@ META = {
         "note": "Trusts the reference model (harness/model.go) as the statement of intended semantics; only the exported API is used.",
         "technique": "model-based stateful property testing (rapid state machine) with reference-model oracle",
     },
+    "C02": {
+        "text": ("Model-based stateful property testing with a metamorphic twin (history minus rolled-back transactions), a recording logger and "
+                 "in-flight observers (second transaction, snapshot+restore, own reads) at generated points. Exploration over bounded random histories."),
+        "design_ref": "DESIGN.md §6 C02",
+        "note": "Trusts the reference model; in-flight observers run on the transaction's own goroutine between steps, so latch-internal instants are not observed here (C10 covers those).",
+        "technique": "model-based stateful property testing (rapid) + metamorphic twin + in-flight observation",
+    },
 }
